@@ -94,6 +94,14 @@ Theorem no_stale_justifications :
 Proof. vm_compute. reflexivity. Qed.
 Print Assumptions no_stale_justifications.
 
+(* every theorem of another property's development that the table cites (JustifiedBy) is in the registry
+   Proofs/ProgP.v:citations, where a corollary about the producer's model is closed with it — a cited
+   theorem that disappears or changes its statement breaks the build *)
+Theorem every_cited_theorem_exists :
+  forallb cited_in_registry site_justification = true.
+Proof. vm_compute. reflexivity. Qed.
+Print Assumptions every_cited_theorem_exists.
+
 (* an absent flag promises nothing: the defaults of COO.__init__ are sorted=False,
    has_duplicates=True (prune=False), of GCXS.__init__ prune=False *)
 Theorem constructor_defaults_promise_nothing :
